@@ -4,7 +4,7 @@ edge reaches no handler and yields the version's refusal; release: every final a
 (PUBACK QoS1, SUBACK, UNSUBACK, PUBCOMP) is paired with a remove of the same id, a QoS 2 PUBREC is
 not, and no remove precedes the completion of the handler future; pubrel-gate: PUBREL consults the
 set and the unknown-id edge never reaches the control service. Decides code shape on all paths, not
-histories. release (continued): publish_fn hands an un-routed PUBLISH to the control service with its packet id (control_pkt), never through the id-less control(). pubrel-gate (continued): the PUBREL arm builds a PUBCOMP itself only for an unknown id.
+histories. release (continued): publish_fn hands an un-routed PUBLISH to the control service with its packet id (control_pkt), never through the id-less control(). pubrel-gate (continued): the PUBREL arm builds a PUBCOMP itself only for an unknown id. release (continued): no release of the id is reachable - on a path consistent with the branch decisions - before a PUBREC is built, unless it is guarded by a numeric test of the reason code against 0x80.
 """
 from facts import *
 from disp import *
